@@ -1,0 +1,40 @@
+//go:build verif
+
+// Contracts for package internal, read by /verif/gocv (comment-only; no code).
+package internal
+
+//@ func MemClr
+//@   facet C10
+//@   modifies buf[*]
+//@   ensures [C10:all-zero] forall i int :: 0 <= i && i < len(buf) ==> buf[i] == 0
+//@   loop 1 invariant [C10:prefix-zero] 0 <= iter && iter <= len(buf) && (forall j int :: 0 <= j && j < iter ==> buf[j] == 0)
+
+// ---- byte accessors (same shape as securememory.Secret.WithBytesFunc, which implements them) ----
+
+//@ iface BytesFuncAccessor.WithBytesFunc
+//@   names action
+//@   opt callback action
+//@   ensures cb_called ==> result == cb_ret0
+//@   ensures !cb_called ==> result == nil && err != nil
+//@   ensures cb_called ==> (err == cb_ret1 || err != nil)
+
+//@ iface BytesAccessor.WithBytes
+//@   names action
+//@   opt callback action
+//@   ensures !cb_called ==> err != nil
+//@   ensures cb_called ==> (err == cb_ret0 || err != nil)
+
+// ---- C10: the buffer handed to NewCryptoKey is wiped on every return ----
+
+//@ func NewCryptoKey
+//@   facet C10
+//@   modifies key[*]
+//@   ensures [C10:source-wiped] forall i int :: 0 <= i && i < len(key) ==> key[i] == 0
+//@   ensures (err == nil) == (result != nil)
+
+// ---- Revokable: observers without heap effect ----
+
+//@ iface Revokable.Created
+//@   pure
+//@ iface Revokable.Revoked
+//@   pure
